@@ -322,20 +322,16 @@ Theorem C10_legacy_order_by_generation : forall rev1 g1 d1 gen1 v1 rev2 g2 d2 ge
 Proof. exact legacy_order_by_generation. Qed.
 Print Assumptions C10_legacy_order_by_generation.
 
-(* the rev message built for a peer that holds a legacy revision.  PARTIAL: for vectors without merge versions or
-   with at least one previous version.  The statement for all sendable vectors,
-   [C10_wire_legacy_full_statement], is REFUTED for the unchanged code (C10_Refuted.v
-   wire_legacy_mv_only_refuted, monitor signature wire-legacy-mv-only-history-rejected): toHistoryForHLV ends the
-   merge versions with ';' even when no previous version follows, the sender then appends ",revID,..." and
-   the receiver finds an empty entry in the pv section. *)
-Definition C10_wire_legacy_full_statement : Prop := forall v lg, sendable v -> lg <> [] -> (forall x, In x lg -> legacy_ok x) ->
-  exists v', extract_hlv (wire_join (cv_string v) (history_legacy v lg)) = Some (v', lg) /\ svec_equiv v' (wire_view v).
-
-Theorem C10_wire_legacy_roundtrip_partial : forall v lg, sendable v -> lg <> [] -> (forall x, In x lg -> legacy_ok x) ->
-  (s_mv v = [] \/ s_pv v <> []) ->
+(* the rev message built for a peer that holds a legacy revision (buildRevHistory scenario 3 as repaired by commit
+   136d16a of /repo: an HLV history ending with ';' takes the first revision id directly after the semicolon):
+   FULL, for every sendable vector, the merge-versions-only ones included -- the vector and the legacy ids come
+   back.  For the sender before that commit the statement is refuted (C10_Refuted.v wire_legacy_mv_only_refuted /
+   wire_legacy_full_statement_refuted about [history_legacy_old]; monitor signature
+   wire-legacy-mv-only-history-rejected). *)
+Theorem C10_wire_legacy_roundtrip : forall v lg, sendable v -> lg <> [] -> (forall x, In x lg -> legacy_ok x) ->
   exists v', extract_hlv (wire_join (cv_string v) (history_legacy v lg)) = Some (v', lg) /\ svec_equiv v' (wire_view v).
 Proof. exact wire_legacy_roundtrip. Qed.
-Print Assumptions C10_wire_legacy_roundtrip_partial.
+Print Assumptions C10_wire_legacy_roundtrip.
 
 (* ---- non-vacuity: a concrete clean history with a conflict, a merge, a fast-forward and an
         already-known pull; its vectors satisfy the hypotheses of the theorems above ---- *)
